@@ -167,7 +167,7 @@ def run_case(case, R):
         if e > 1e-7 * scale:
             R.skip("exponent-oracle-inconclusive")
             continue
-        if abs(got - w) > 3e-7 * scale + 10 * e:
+        if not (abs(got - w) <= 3e-7 * scale + 10 * e):
             lin = (got - w).imag / u if u else 0.0
             kind = "linear-term" if abs((got - w).real) < 1e-6 * scale else "other"
             R.violation(f"{fam}-exponent-vs-declared-triplet-{kind}", f"{label}: levy_exponent({u!r}) = {got!r} but the Levy-Khintchine "
@@ -187,7 +187,7 @@ def run_case(case, R):
         if e > 1e-7 * scale:
             R.skip("exponent-oracle-inconclusive")
             continue
-        if abs(got - w) > 1e-7 * scale + 10 * e:
+        if not (abs(got - w) <= 1e-7 * scale + 10 * e):
             R.violation(f"{fam}-moment-generating-exponent-vs-declared-triplet", f"{label}: levy_exponent(-i*{s!r}) = {got!r}, Levy-Khintchine "
                         f"integral in {rep0}: {w!r}", wit)
             break
@@ -211,10 +211,10 @@ def run_case(case, R):
             kappa = math.factorial(n) * np.mean(Ks * zs ** (-n)).real
             R.hit("cumulant_checks")
             t2 = float(fn(2.5))
-            if abs(t2 - 2.5 * stated) > 1e-12 * (1 + abs(stated)):
+            if not (abs(t2 - 2.5 * stated) <= 1e-12 * (1 + abs(stated))):
                 R.violation(f"{fam}-cumulant-not-linear-in-time", f"{label}: cumulant{n}(2.5) = {t2!r} != 2.5 * cumulant{n}(1) = {2.5 * stated!r}", wit)
             tol = 1e-8 * (abs(kappa) + math.factorial(n) * np.max(np.abs(Ks)) * rho ** (-n) * 1e-6)
-            if abs(stated - kappa) > tol + 1e-12:
+            if not (abs(stated - kappa) <= tol + 1e-12):
                 R.violation(f"{fam}-cumulant{n}-vs-exponent", f"{label}: cumulant{n}(1) = {stated!r} but the {n}-th derivative of the exponent at 0 "
                             f"is {kappa!r}", wit)
     # ---- (iii) representation changes ------------------------------------------------------------------------------------------
@@ -243,7 +243,7 @@ def run_case(case, R):
             else:
                 v, e = Q.integrate_general(lambda x: (ho(x) - hn(x)) * dens(x), -math.inf, math.inf, list(br) + [-1.0, 1.0], 1 - alpha if 1 - alpha > 0 else 1.0)
                 R.hit("conversion_differences")
-                if abs((new_a - cur_a) + v) > 1e-8 * (abs(v) + abs(new_a) + abs(cur_a) + 1e-6) + 10 * e:
+                if not (abs((new_a - cur_a) + v) <= 1e-8 * (abs(v) + abs(new_a) + abs(cur_a) + 1e-6) + 10 * e):
                     R.violation(f"{fam}-conversion-{cur_rep}-to-{nxt}", f"{label}: a changes by {new_a - cur_a!r} from {cur_rep} to {nxt}, the integral of "
                                 f"(h_{nxt} - h_{cur_rep}) d nu is {-v!r}", wit)
                     ok = False
@@ -251,7 +251,7 @@ def run_case(case, R):
             cur_rep, cur_a = nxt, new_a
         if ok:
             R.hit("conversion_roundtrips")
-            if abs(cur_a - a0) > 1e-11 * (1 + abs(a0)) + 1e-12:
+            if not (abs(cur_a - a0) <= 1e-11 * (1 + abs(a0)) + 1e-12):
                 R.violation(f"{fam}-conversion-not-reversible", f"{label}: after the sequence {seq} the drift is {cur_a!r}, it was {a0!r} in {rep0}", wit)
     else:
         R.hit("conversion_roundtrips", 0)
@@ -263,13 +263,13 @@ def run_case(case, R):
         R.hit("martingale_cf")
         m1 = complex(model.log_characteristic_function(T, -1j))
         fwd = spec["spot"] * math.exp((r - dd) * T)
-        if abs(m1 - fwd) > 1e-9 * fwd:
+        if not (abs(m1 - fwd) <= 1e-9 * fwd):
             R.violation(f"{fam}-martingale-cf", f"{label}: E[S_T] from the characteristic function at -i = {m1!r}, forward = {fwd!r}", wit)
         # ... and under the exact jump law: drift() + psi_LK(1) = r - d
         want = lk_exponent(complex(1.0, 0.0)) if smax > 1.0 else None
         if want is not None and want[1] < 1e-9:
             g = float(model.drift()) + want[0].real
-            if abs(g - (r - dd)) > 1e-7 * (1 + abs(want[0].real)) + 10 * want[1]:
+            if not (abs(g - (r - dd)) <= 1e-7 * (1 + abs(want[0].real)) + 10 * want[1]):
                 R.violation(f"{fam}-martingale-cf-under-exact-jump-law", f"{label}: log-growth drift() + psi(1) by quadrature = {g!r}, r - d = {r - dd!r}", wit)
         # route 2: drift used by the direct simulation (finite-activity models that can be simulated directly)
         if spec["family"] in ("HEM", "MERTON", "BS"):
@@ -280,7 +280,7 @@ def run_case(case, R):
             else:
                 comp, e = 0.0, 0.0
             g = pd + 0.5 * sigma**2 + comp
-            if abs(g - (r - dd)) > 1e-8 * (1 + abs(comp)) + 10 * e:
+            if not (abs(g - (r - dd)) <= 1e-8 * (1 + abs(comp)) + 10 * e):
                 R.violation(f"{fam}-martingale-direct-simulation-drift", f"{label}: process_drift {pd!r} + sigma^2/2 + integral (e^x - 1) nu = {g!r} "
                             f"but r - d = {r - dd!r} (sigma = {sigma!r})", wit)
         # route 3: drift used by the Markov-chain approximation: TILDE representation on the un-truncated measure
@@ -296,7 +296,7 @@ def run_case(case, R):
                 comp, e = Q.integrate_general(lambda x: ((math.expm1(x) - hT(x)) if (abs(x) > 0.05 or hT(x) != x) else sum(x**k / math.factorial(k) for k in range(2, 14))) * dens(x) if dens(x) else 0.0, -math.inf, math.inf, list(br) + [-1.0, 1.0], order - alpha)
                 g = float(m3.drift()) + a_t + 0.5 * sigma**2 + comp
                 R.hit("martingale_chain_drift")
-                if abs(g - (r - dd)) > 1e-7 * (1 + abs(comp) + abs(a_t)) + 10 * e:
+                if not (abs(g - (r - dd)) <= 1e-7 * (1 + abs(comp) + abs(a_t)) + 10 * e):
                     R.violation(f"{fam}-martingale-chain-drift", f"{label}: drift() + a_TILDE + sigma^2/2 + integral (e^x - 1 - h_TILDE) nu = {g!r}, "
                                 f"r - d = {r - dd!r}", wit)
             else:
